@@ -140,7 +140,7 @@ func RunSharded(r *Run, testName string, body func(s *Shard)) {
 			defer wg.Done()
 			out := filepath.Join(scratch, fmt.Sprintf("shard-%s-%d.json", r.ID, k))
 			cmd := exec.Command(os.Args[0], "-test.run", "^"+testName+"$", "-test.timeout", "0")
-			cmd.Env = append(os.Environ(), fmt.Sprintf("VERIF_SHARD_SPEC=%d/%d/%d", k, W, r.deadline.UnixMilli()), "VERIF_SHARD_OUT="+out, "GOMAXPROCS=2", "GOGC=200")
+			cmd.Env = append(os.Environ(), fmt.Sprintf("VERIF_SHARD_SPEC=%d/%d/%d", k, W, r.deadline.UnixMilli()), "VERIF_SHARD_OUT="+out, "GOMAXPROCS=2")
 			cmd.Stderr = os.Stderr
 			cmd.Stdout = os.Stderr
 			err := cmd.Run()
